@@ -437,3 +437,32 @@ def parse_terminator(ln):
     args = callpart[j + 1:-1]
     ops = [parse_operand(p) for p in split_top(args)] if args.strip() else []
     return ('call', dest, callee, ops, ret_bb)
+
+
+RE_ALLOC = re.compile(r'^(alloc\d+) \((?:static: [^,]*, )?size: (\d+), align: \d+\) \{\n(.*?)^\}\n', re.M | re.S)
+
+
+def parse_allocs(text):
+    """{alloc id: bytes} for the plain-data allocations of the dump (those with relocations are skipped)"""
+    out = {}
+    for m in RE_ALLOC.finditer(text):
+        name, size, body = m.group(1), int(m.group(2)), m.group(3)
+        if '╾' in body:
+            continue
+        data = bytearray()
+        ok = True
+        for ln in body.split('\n'):
+            if not ln.strip():
+                continue
+            parts = ln.split('│')
+            hexpart = parts[1] if len(parts) >= 3 else parts[0]
+            for tok in hexpart.split():
+                if re.fullmatch(r'[0-9a-f]{2}', tok):
+                    data.append(int(tok, 16))
+                elif tok == '__':
+                    data.append(0)
+                else:
+                    ok = False
+        if ok and len(data) == size:
+            out[name] = bytes(data)
+    return out
